@@ -354,6 +354,24 @@ func c11Setups() []setupF {
 			w.Do(9, 7, ClaimT("__resume:b:p", 1, "w9", 1).F())
 			w.SetClock(10)
 		}},
+		{"elapsed-init-first", func(w *world.World) {
+			// the first root in dispatch order has nothing but a resume task whose own
+			// timeout (12) had already passed when the awaited promise completed (at 20):
+			// the cycle has to retire it, behind it waits a dispatchable invocation
+			w.Do(9, 0, CreateP("a", "", false, 100000, nil, "x").F())
+			w.Do(9, 1, CreateP("b", "", false, 100000, routedTags, "x").F())
+			w.Do(9, 2, CreateP("p", "", false, 100000, nil, "x").F())
+			w.Do(9, 3, Callback("a", "p", 12, `"poll://g/w"`).F())
+			w.Do(9, 4, ClaimT("__invoke:b", 1, "w1", 1).F())
+			w.Do(9, 5, CreateP("p2", "", false, 100000, nil, "x").F())
+			w.Do(9, 6, Callback("b", "p2", 30, `"poll://g/w"`).F())
+			w.SetClock(20)
+			w.Do(9, 7, CompleteP("p", promise.Resolved, "", false, "v").F())
+			// a resume task with its own timeout (30), claimed with a lease that reaches far
+			// beyond it: the task sweep has to retire it when its timeout passes
+			w.Do(9, 8, CompleteP("p2", promise.Resolved, "", false, "v").F())
+			w.Do(9, 9, ClaimT("__resume:b:p2", 1, "w2", 100000).F())
+		}},
 	}
 }
 
